@@ -572,6 +572,19 @@ ODD_VALUES = [0, 1, -1, 255, 2 ** 31 - 1, 2 ** 31, -2 ** 31, -2 ** 31 - 1, 2 ** 
               'root_hash': 'aa' * 32, 'file_hash': 'bb' * 32}, {'@type': 'no.such.ctor'}, {'@type': 'liteServer.getTime', 'seqno': 5}]
 
 
+def validation_values(W, rng=None):
+    """the corpus of TL values of the translator validation: 2-3 type-directed values of every covered constructor (strings around 253 / 254)"""
+    import random
+    from ..gen import tlvals as V
+    rng = rng or random.Random(20240914)
+    vals = []
+    cov = [c for c in W.ctors if W.covered(c)]
+    for k, c in enumerate(cov):
+        for r in range(2 if k % 3 else 3):
+            vals.append((c, V.gen_obj(W, rng, c, 0, {'depth': 2, 'big': False, 'lens': [0, 1, 3, 4, 253, 254, 255, 300]})))
+    return vals
+
+
 def validation_cases(W=None):
     """-> (W, [(word, python thunk)])"""
     import copy
@@ -580,11 +593,8 @@ def validation_cases(W=None):
     W = W or V.World()
     rng = random.Random(20240914)
     out = []
-    cov = [c for c in W.ctors if W.covered(c)]
-    for k, c in enumerate(cov):
-        for r in range(2 if k % 3 else 3):
-            v = V.gen_obj(W, rng, c, 0, {'depth': 2, 'big': False, 'lens': [0, 1, 3, 4, 253, 254, 255, 300]})
-            out.append((f'ser:{c["idx"]}:{V.tok_obj(W, c, v)}', lambda c=c, v=v: W.lib.serialize(W.lib.list[c['idx']], copy.deepcopy(v))))
+    for c, v in validation_values(W, rng):
+        out.append((f'ser:{c["idx"]}:{V.tok_obj(W, c, v)}', lambda c=c, v=v: W.lib.serialize(W.lib.list[c['idx']], copy.deepcopy(v))))
     # the parser: the serialisations of these values, whole / followed by other bytes / cut / with one byte changed, both modes
     k = 0
     for w, thunk in list(out):
@@ -728,7 +738,7 @@ def validate():
     return None, len(cases)
 
 
-def diff_values(ctx, W, pairs):
+def diff_values(ctx, W, pairs, damaged=False):
     """For harness search mode: pairs = [(constructor, value)] -> those on which the regenerated serialiser and the hand model differ, or
     on whose serialisation (whole / followed by other bytes, both modes) the regenerated PARSER and the hand-model parser differ
     (evaluated by Lean; needs only Generated/TlEngine.lean and the driver modules, not the proofs).  Never raises."""
@@ -743,7 +753,11 @@ def diff_values(ctx, W, pairs):
                 ser = W.lib.serialize(W.lib.list[c['idx']], copy.deepcopy(v))
             except Exception:
                 continue
-            for d, auto in ((ser, 0), (ser, 1), (ser + b'\x01\x02\x03\x04\x05', 0)):
+            variants = [(ser, 0), (ser, 1), (ser + b'\x01\x02\x03\x04\x05', 0)]
+            if damaged and len(ser) > 8:
+                # not well-typed any more: a difference here still points at the value whose round trips the oracle then runs
+                variants += [(ser[:4 + (k * 7) % (len(ser) - 4)], 1), (ser[:-1] + bytes([ser[-1] ^ 0x80]), 1)]
+            for d, auto in variants:
                 words.append(f'ddes:{d.hex() or "-"}:{auto}')
                 owner.append(k)
         got = lean_eval(words)
